@@ -421,7 +421,7 @@ CONFIGS = [(cpu, bs) for cpu in (2, 8) for bs in (1, 3)]
 
 def schedule(ctx, runner, cases, thorough):
     """quick: every case once, under a seeded configuration (the four (cpu, batch) configurations, both formats and
-    both obigrep code paths are covered evenly); thorough: every case under all of them."""
+    both obigrep code paths are covered evenly); thorough: every case under the four (cpu, batch) configurations."""
     k = ctx.seed
     for case in cases:
         t = case["tool"]
@@ -429,12 +429,10 @@ def schedule(ctx, runner, cases, thorough):
             continue
         if thorough:
             for cpu, bs in CONFIGS:
-                for fq in (False, True):
-                    for save in ((False, True) if t == "grep" else (False,)):
-                        if t in ("dist", "mux") and fq:
-                            continue
-                        k += 1
-                        runner.add(case, cpu, bs, fq, save, k)
+                k += 1
+                fq = (k // 4) % 2 == 1 and t not in ("dist", "mux")
+                save = t == "grep" and (k // 8) % 2 == 1
+                runner.add(case, cpu, bs, fq, save, k)
         else:
             reps = 4 if t in ("dist", "mux") else 1
             for _ in range(reps):
